@@ -39,13 +39,14 @@ type genuine struct {
 }
 
 type fixture struct {
-	store   *kit.Store
-	kms     *kit.SpyKMS
-	factory *appencryption.SessionFactory
-	pool    []genuine
-	byData  map[string]int // string(Data) -> index in pool
-	warm    map[string]*appencryption.Session
+	store            *kit.Store
+	kms              *kit.SpyKMS
+	factory          *appencryption.SessionFactory
+	pool             []genuine
+	byData           map[string]int // string(Data) -> index in pool
+	warm             map[string]*appencryption.Session
 	service, product string
+	suffix           string
 }
 
 func cloneDRR(d appencryption.DataRowRecord) appencryption.DataRowRecord {
@@ -79,10 +80,15 @@ func newFactory(fx *fixture, store appencryption.Metastore, cache bool) *appencr
 }
 
 // newFixture builds the pool: 2 partitions x 2 IK generations x 2 SKs x 4 payload sizes.
-func newFixture() *fixture {
+func newFixture() *fixture { return newFixtureSuffix("") }
+
+// newFixtureSuffix builds the pool over a store that reports the given region suffix.
+func newFixtureSuffix(suffix string) *fixture {
 	verifhook.InstallClock(time.Unix(1_700_000_000, 0))
 	log := &kit.CallLog{}
 	fx := &fixture{store: kit.NewStore(log), kms: kit.NewSpyKMS(log), byData: map[string]int{}, warm: map[string]*appencryption.Session{}, service: "svc", product: "prod"}
+	fx.store.Suffix = suffix
+	fx.suffix = suffix
 	fx.factory = newFactory(fx, fx.store, true)
 	payloads := [][]byte{{}, {0x41}, []byte("sixteen byte pay"), bytes.Repeat([]byte{0xab}, 33)}
 	for gen := 0; gen < 2; gen++ {
@@ -103,7 +109,7 @@ func newFixture() *fixture {
 		}
 		if gen == 0 {
 			// rotate SK and IKs: revoke the SK out of band, let the caches notice
-			sk := fx.store.Latest(kit.RefSKID(fx.service, fx.product, ""))
+			sk := fx.store.Latest(kit.RefSKID(fx.service, fx.product, suffix))
 			fx.store.Revoke(sk.ID, sk.Created)
 			verifhook.Advance(5 * time.Second)
 		}
@@ -286,7 +292,15 @@ func TestAEADDirect(t *testing.T) {
 }
 
 func TestRecombinationAndStructure(t *testing.T) {
-	fx := newFixture()
+	recombinationAndStructure(t, newFixture())
+}
+
+// TestRecombinationAndStructureSuffixed: the same with a region-suffixing metastore (another partition implementation).
+func TestRecombinationAndStructureSuffixed(t *testing.T) {
+	recombinationAndStructure(t, newFixtureSuffix("us-west-2"))
+}
+
+func recombinationAndStructure(t *testing.T, fx *fixture) {
 	defer verifhook.RemoveClock()
 	c := &counter{}
 	rows := fx.store.CopyRows()
@@ -329,15 +343,19 @@ func TestRecombinationAndStructure(t *testing.T) {
 	// (3) structural
 	g := fx.pool[2]
 	structural := map[string]func(*appencryption.DataRowRecord){
-		"nil Key":                 func(d *appencryption.DataRowRecord) { d.Key = nil },
-		"nil ParentKeyMeta":       func(d *appencryption.DataRowRecord) { d.Key.ParentKeyMeta = nil },
-		"nil Data":                func(d *appencryption.DataRowRecord) { d.Data = nil },
-		"nil EncryptedKey":        func(d *appencryption.DataRowRecord) { d.Key.EncryptedKey = nil },
-		"empty ParentKeyMeta.ID":  func(d *appencryption.DataRowRecord) { d.Key.ParentKeyMeta.ID = "" },
-		"zero value record":       func(d *appencryption.DataRowRecord) { *d = appencryption.DataRowRecord{} },
-		"empty key record":        func(d *appencryption.DataRowRecord) { d.Key = &appencryption.EnvelopeKeyRecord{} },
-		"revoked flag set":        func(d *appencryption.DataRowRecord) { d.Key.Revoked = true },
-		"key ID field set":        func(d *appencryption.DataRowRecord) { d.Key.ID = "_IK_p2_svc_prod" },
+		"nil Key":                                   func(d *appencryption.DataRowRecord) { d.Key = nil },
+		"nil ParentKeyMeta":                         func(d *appencryption.DataRowRecord) { d.Key.ParentKeyMeta = nil },
+		"nil Data":                                  func(d *appencryption.DataRowRecord) { d.Data = nil },
+		"nil EncryptedKey":                          func(d *appencryption.DataRowRecord) { d.Key.EncryptedKey = nil },
+		"empty ParentKeyMeta.ID":                    func(d *appencryption.DataRowRecord) { d.Key.ParentKeyMeta.ID = "" },
+		"ParentKeyMeta.ID without underscore":       func(d *appencryption.DataRowRecord) { d.Key.ParentKeyMeta.ID = "garbage" },
+		"ParentKeyMeta.ID = '_'":                    func(d *appencryption.DataRowRecord) { d.Key.ParentKeyMeta.ID = "_" },
+		"ParentKeyMeta.ID with trailing underscore": func(d *appencryption.DataRowRecord) { d.Key.ParentKeyMeta.ID += "_" },
+		"ParentKeyMeta.ID truncated":                func(d *appencryption.DataRowRecord) { d.Key.ParentKeyMeta.ID = d.Key.ParentKeyMeta.ID[:3] },
+		"zero value record":                         func(d *appencryption.DataRowRecord) { *d = appencryption.DataRowRecord{} },
+		"empty key record":                          func(d *appencryption.DataRowRecord) { d.Key = &appencryption.EnvelopeKeyRecord{} },
+		"revoked flag set":                          func(d *appencryption.DataRowRecord) { d.Key.Revoked = true },
+		"key ID field set":                          func(d *appencryption.DataRowRecord) { d.Key.ID = "_IK_p2_svc_prod" },
 	}
 	for name, f := range structural {
 		m := cloneDRR(g.drr)
@@ -354,12 +372,12 @@ func TestRecombinationAndStructure(t *testing.T) {
 	}
 	// Load with loaders that err, return nothing, or return garbage
 	loaders := map[string]appencryption.Loader{
-		"loader returns an error":          loaderFunc(func() (*appencryption.DataRowRecord, error) { return nil, errors.New("not found") }),
-		"loader returns nil, nil":          loaderFunc(func() (*appencryption.DataRowRecord, error) { return nil, nil }),
-		"loader returns an empty record":   loaderFunc(func() (*appencryption.DataRowRecord, error) { return &appencryption.DataRowRecord{}, nil }),
-		"loader returns record + error":    loaderFunc(func() (*appencryption.DataRowRecord, error) { d := cloneDRR(g.drr); return &d, errors.New("partial") }),
-		"loader returns a genuine record":  loaderFunc(func() (*appencryption.DataRowRecord, error) { d := cloneDRR(g.drr); return &d, nil }),
-		"loader returns a foreign record":  loaderFunc(func() (*appencryption.DataRowRecord, error) { d := cloneDRR(fx.pool[6].drr); return &d, nil }),
+		"loader returns an error":         loaderFunc(func() (*appencryption.DataRowRecord, error) { return nil, errors.New("not found") }),
+		"loader returns nil, nil":         loaderFunc(func() (*appencryption.DataRowRecord, error) { return nil, nil }),
+		"loader returns an empty record":  loaderFunc(func() (*appencryption.DataRowRecord, error) { return &appencryption.DataRowRecord{}, nil }),
+		"loader returns record + error":   loaderFunc(func() (*appencryption.DataRowRecord, error) { d := cloneDRR(g.drr); return &d, errors.New("partial") }),
+		"loader returns a genuine record": loaderFunc(func() (*appencryption.DataRowRecord, error) { d := cloneDRR(g.drr); return &d, nil }),
+		"loader returns a foreign record": loaderFunc(func() (*appencryption.DataRowRecord, error) { d := cloneDRR(fx.pool[6].drr); return &d, nil }),
 	}
 	for name, l := range loaders {
 		var out []byte
@@ -390,7 +408,9 @@ func TestRecombinationAndStructure(t *testing.T) {
 
 type loaderFunc func() (*appencryption.DataRowRecord, error)
 
-func (f loaderFunc) Load(context.Context, interface{}) (*appencryption.DataRowRecord, error) { return f() }
+func (f loaderFunc) Load(context.Context, interface{}) (*appencryption.DataRowRecord, error) {
+	return f()
+}
 
 // ---- (4) corrupted store rows ---------------------------------------------------------
 
@@ -468,6 +488,7 @@ func rowMutations(rows []*appencryption.EnvelopeKeyRecord) []rowMutation {
 
 func (fx *fixture) corruptedStore(m rowMutation) *kit.Store {
 	st := kit.NewStore(&kit.CallLog{})
+	st.Suffix = fx.suffix
 	for _, r := range m.apply(fx.store.CopyRows()) {
 		st.Insert("corrupt", r.ID, r.Created, r)
 	}
@@ -668,7 +689,9 @@ func TestArbitraryJSONRecords(t *testing.T) {
 			}
 			out, err = fx.warm[g.part].Decrypt(ctx, in)
 		}()
-		kit.Rec.Case("json|"+path+"|"+string(raw), true, func() any { return map[string]any{"mutated_path": path, "json": string(trunc(raw)), "error": fmt.Sprint(err)} })
+		kit.Rec.Case("json|"+path+"|"+string(raw), true, func() any {
+			return map[string]any{"mutated_path": path, "json": string(trunc(raw)), "error": fmt.Sprint(err)}
+		})
 		if msg := fx.judge("JSON record with "+path+" replaced", in, out, err, p); msg != "" {
 			kit.Rec.Violation(msg)
 			t.Fatalf("C07 violated: %s\n  json: %s", msg, raw)
